@@ -91,3 +91,20 @@ def pbool(x):
     if isinstance(x, SSeq):
         return x.slen() > 0
     return bool(x)
+
+
+def pint(x):
+    """int(text) for plain or symbolic text"""
+    if isinstance(x, SSeq):
+        from .fmt import seq_to_int
+
+        return seq_to_int(x)
+    return int(x)
+
+
+def pstr(x):
+    if isinstance(x, (SInt, SSeq)):
+        from .fmt import to_str
+
+        return to_str(x)
+    return str(x)
